@@ -128,7 +128,7 @@ def check_polyline(ctx: Ctx, inst: dict, rng: random.Random) -> None:
                 if got is not None and abs(got - abs(cum[j] - cum[i])) > 1e-9 * L:
                     bad(f"discrete:length:{order}", f"get_length({i}, {j}) = {got}, exact {abs(cum[j] - cum[i])}")
                 disc = guarded("discrete.discretize", lambda: dis.discretize(i, j))
-                if disc is not None and (vdist(disc[0], pts[i]) > tolp or vdist(disc[-1], pts[j]) > tolp or len(disc) != abs(i - j) + 1):
+                if disc is not None and (len(disc) != abs(i - j) + 1 or vdist(disc[0], pts[i]) > tolp or vdist(disc[-1], pts[j]) > tolp):
                     bad(f"discrete:discretize-ends:{order}", f"discretize({i}, {j}) does not run from point {i} to point {j}")
     # ---- spline: through its points, end points of discretisation, additivity at defining points, monotone
     if spl is not None:
